@@ -4,6 +4,18 @@
 K = {"name": "TestKnown", "enum": True}
 
 CHECKS = {
+    "C19": {
+        "level": "exploration",
+        "tests": [
+            {"name": "TestC19Laws", "checks": [3000, 20000], "shards": [2, 16], "floor": 0.6},
+            {"name": "TestC19Numbers", "checks": [3000, 20000], "shards": [1, 8], "floor": 0.6},
+            {"name": "TestC19SliceGrid", "enum": True},
+            {"name": "TestC19Default", "enum": True},
+            K,
+        ],
+        "assumptions": ["results are observed through json_encode and decoded with encoding/json",
+                        "join/split round trip only for single-character separators (multi-character separators: known finding F28, pinned by an existing test)"],
+    },
     "C03": {
         "level": "exploration",
         "tests": [
